@@ -2,6 +2,7 @@ import Nstd.Future.SpawnFail
 import Nstd.Future.Safety
 import Nstd.Future.SafetyFault
 import Nstd.Future.Witness
+import Nstd.Future.Fair2Main
 /-
   Facts about the extended system of `SpawnFail.lean` (failing creation of pool workers as an environment choice):
     xreach_reach       every state of the extended system is a reachable state of `Model.lean` (so every safety theorem
@@ -220,5 +221,141 @@ def sfDtorCheck : Bool :=
   | none => false
 
 theorem sfDtor_check : sfDtorCheck = true := by decide +kernel
+
+end Nstd.Future
+
+/-! ## round 4: the tail rule, the repaired failure branch (fixes/future/0006), finite progress -/
+
+namespace Nstd.Future
+
+/-- the tail rule `xpass` (join of a never-started thread returns at once) is safety-neutral: it rewrites the top frame of the
+    joining thread and nothing else — every ghost counter, record, future, signal, the pool and every other thread are unchanged -/
+theorem xpass_changes_only_the_joining_stack {x x' : XState} {t : Tid} (h : xpass x t = some x') :
+    x'.dead = x.dead ∧ x'.s.execCount = x.s.execCount ∧ x'.s.completed = x.s.completed ∧ x'.s.freeCount = x.s.freeCount ∧
+    x'.s.execArgs = x.s.execArgs ∧ x'.s.everCalls = x.s.everCalls ∧ x'.s.calls = x.s.calls ∧ x'.s.futs = x.s.futs ∧
+    x'.s.sigs = x.s.sigs ∧ x'.s.pool = x.s.pool ∧ x'.s.fault = x.s.fault ∧ x'.s.nextCall = x.s.nextCall ∧
+    (∀ u, u ≠ t → x'.s.threads u = x.s.threads u) ∧
+    (∃ th i rest, x.s.threads t = some th ∧ th.stack = .dJoin i :: rest) := by
+  unfold xpass at h
+  split at h
+  · next th p hth hp =>
+    split at h
+    · next i rest hst =>
+      split at h
+      · split at h
+        · injection h with h; subst h
+          refine ⟨rfl, rfl, rfl, rfl, rfl, rfl, rfl, rfl, rfl, rfl, rfl, rfl, ?_, th, i, rest, hth, hst⟩
+          intro u hu; simp [setThread, upd, hu]
+        · cases h
+      · cases h
+    · cases h
+  · cases h
+
+/-- `Model.lean` already passes a context that is terminated and was never started (what the REPAIRED failure branch leaves in
+    `_threads`): the join loop of `~ThreadPool` is not blocked by it and moves on without any operation -/
+theorem join_loop_skips_never_started_context (s : State) (t : Tid) (th : Thread) (p : Pool) (i : Nat) (c : Ctx)
+    (hp : s.pool = some p) (hc : p.ctxs[i]? = some c) (hn : c.tid = none) :
+    blockedFrame s t (.dJoin i) = false ∧
+    stepFrame s t th (.dJoin i) = (setThread s t (th.cont [if i + 1 < p.ctxs.length then .dJoin (i + 1) else .dFin]), []) := by
+  obtain ⟨id, tid, term⟩ := c
+  simp only at hn; subst hn
+  constructor
+  · simp [blockedFrame, hp, hc]
+  · simp [stepFrame, hp, hc]
+
+/-- finite progress with refused threads (any failure pattern): the relation "an ordinary micro-step of an existing thread changes
+    the state" has no infinite chain on `XReach` — after finitely many state-changing steps an extended run can only stop, spin on the
+    pool-creation lock, or refuse further creations (each refusal consumes one of the `_maxThreads` reservations in the unrepaired code) -/
+def XProgresses (cfg : Config) (x' x : XState) : Prop :=
+  XReach cfg x ∧ x'.s ≠ x.s ∧ ∃ t o, xstep x t = some (x', o)
+
+theorem xprogresses_wf {cfg : Config} (hrep : cfg.repaired = true) : WellFounded (XProgresses cfg) := by
+  have h : WellFounded (InvImage (Progresses cfg) XState.s) := InvImage.wf _ (progresses_wf hrep)
+  refine Subrelation.wf ?_ h
+  intro x' x ⟨hx, hne, t, o, hs⟩
+  obtain ⟨_, s', h1, rfl⟩ := xstep_inv hs
+  exact ⟨xreach_reach hx, hne, t, o, h1⟩
+
+/-! ### the repaired failure branch: kernel-evaluated runs of the REPAIRED real code (harness built from /repo + fixes/future/0006) -/
+
+def allFinished (s : State) : Bool :=
+  (List.range s.nthreads).all (fun t => match s.threads t with
+    | some th => th.finished
+    | none => true)
+
+/-- repaired code, `q=1 cf=1 | s0:11:5 j0` (default policy): the handler has undone the reservation (`_threadCount = 0`), the job is
+    queued, the client sleeps in `join()`, nothing can step — the documented limit is independent of the repair -/
+def sfxJoinSched : List Tid := [0,0,0,0,1,1,1,1,1,1,1,1,1,1,1,1,1,1,1,1,1,1,1,1,1,1,1,1,1,1,1,1,1,1,1,1,1,1,1,1,1]
+
+def sfxJoinCheck : Bool :=
+  match xrunFix 1 { s := State.init sfJoinCfg } sfxJoinSched with
+  | some x => xAllBlockedF x && clientAsleepInJoin x.s 1 0 && x.s.execCount 0 == 0 && queuedJobs x.s == 1 &&
+      poolThreadCount x.s == 0 && x.fixing.isEmpty && x.s.fault.isNone
+  | none => false
+
+theorem sfxJoin_check : sfxJoinCheck = true := by decide +kernel
+
+/-- repaired code, recovery: `q=2 cf=1 | s0:11:5 s1:12:6 j0 j1`: the first creation is refused, the second `start()` creates the
+    worker, both calls are executed, joined, the pool is deleted, every thread finishes -/
+def sfxRecoverCfg : Config :=
+  { q := 2, minT := 0, maxT := 3, lazy := false, tick := 0, spurious := 0, repaired := true,
+    scripts := [[.start 0 11 5, .start 1 12 6, .join 0, .join 1]] }
+
+def sfxRecoverSched : List Tid := [0,0,0,0,1,1,1,1,1,1,1,1,1,1,1,1,1,1,1,1,1,1,1,1,1,1,1,1,1,1,1,1,1,1,1,1,1,1,1,1,1,1,1,1,1,1,1,1,1,1,1,1,1,1,1,1,1,1,1,1,1,1,1,1,1,1,1,3,3,3,3,3,3,3,3,3,3,3,3,3,3,3,3,3,3,3,3,3,3,3,3,3,3,3,3,3,3,3,3,3,3,3,3,3,3,3,3,3,3,3,3,3,3,3,3,3,3,3,3,3,3,3,3,3,3,3,3,3,3,3,3,3,3,1,1,1,1,1,1,1,1,1,1,1,1,1,1,1,1,1,1,1,1,1,1,1,1,1,1,1,1,1,1,1,1,1,1,1,1,1,1,1,1,1,1,0,0,0,0,0,0,0,0,0,0,0,0,0,0,0,0,3,3,3,3,3,3,3,3,3,3,3,3,3,3,3,3,3,0,0,0]
+
+def sfxRecoverCheck : Bool :=
+  match xrunFix 1 { s := State.init sfxRecoverCfg } sfxRecoverSched with
+  | some x => allFinished x.s && x.s.nextCall == 2 && allCallsDone x.s && x.fixing.isEmpty && x.s.pool.isNone && x.s.fault.isNone
+  | none => false
+
+theorem sfxRecover_check : sfxRecoverCheck = true := by decide +kernel
+
+/-- repaired code on the schedule request that hangs the original (`corpus/C10/spawn-failure-destructor-waits-forever.txt`):
+    both refused reservations are undone, `~ThreadPool` queues ONE terminate job, joins the worker, skips the two never-started
+    contexts and completes -/
+def sfxDtorSched : List Tid := [0,0,1,1,1,1,1,1,1,1,1,1,0,0,1,1,1,1,1,0,0,2,2,1,1,2,2,2,2,2,2,1,2,2,1,1,2,2,2,1,1,1,1,1,1,1,1,3,3,3,1,1,1,1,3,2,3,3,2,2,3,3,3,2,2,3,2,2,2,2,2,1,1,3,3,3,3,3,3,2,2,2,2,2,3,3,3,3,3,2,2,2,2,2,2,1,3,3,2,2,3,1,3,3,1,1,1,3,3,3,1,1,1,1,1,1,2,2,2,2,2,2,3,2,3,1,1,1,1,1,3,1,1,1,1,3,3,3,1,1,3,1,3,3,3,3,3,3,3,3,3,1,3,3,1,1,1,1,1,3,3,1,1,3,3,3,1,1,3,3,1,1,1,1,2,3,3,2,2,3,2,3,1,1,2,2,3,3,3,2,2,2,2,2,2,2,2,2,2,2,2,2,2,2,2,2,2,2,2,2,2,2,2,3,3,3,3,3,3,3,3,1,1,1,1,1,1,1,1,1,1,1,1,1,1,1,3,3,3,3,3,3,3,1,1,1,1,1,1,1,1,1,1,1,1,1,1,1,1,1,1,1,1,1,1,1,1,1,1,1,1,3,1,3,3,0,3,3,3,3,3,3,3,0,0,0,0,0,3,3,3,3,3,3,0,0,0,0,0,0,0,0,0,0,0,3,3,3,3,3,3,3,3,3,3,3,3,3,3,3,3,3,0,0,0,0]
+
+def sfxDtorCheck : Bool :=
+  match xrunFix 6 { s := State.init sfDtorCfg } sfxDtorSched with
+  | some x => allFinished x.s && x.s.nextCall == 3 && allCallsDone x.s && x.fixing.isEmpty && x.s.pool.isNone && x.s.fault.isNone
+  | none => false
+
+theorem sfxDtor_check : sfxDtorCheck = true := by decide +kernel
+
+theorem xrunFix_reach {cfg : Config} {mask : Nat} {x x' : XState} {sched : List Tid} (hx : XReachFix cfg x)
+    (h : xrunFix mask x sched = some x') : XReachFix cfg x' := by
+  induction sched generalizing x with
+  | nil => simp only [xrunFix, Option.some.injEq] at h; rw [← h]; exact hx
+  | cons t ts ih =>
+    simp only [xrunFix] at h
+    cases hm : xmoveFix mask x t with
+    | none => rw [hm] at h; cases h
+    | some r =>
+      obtain ⟨x1, o⟩ := r
+      rw [hm] at h
+      apply ih _ h
+      unfold xmoveFix at hm
+      split at hm
+      · exact XReachFix.fix t hx hm
+      · split at hm
+        · split at hm
+          · exact XReachFix.fail t hx hm
+          · exact XReachFix.step t hx hm
+        · exact XReachFix.step t hx hm
+
+/-- a run of the repaired system in which no creation is refused is a run of `Model.lean`, state by state -/
+inductive XReachFix0 (cfg : Config) : XState → Prop where
+  | init : XReachFix0 cfg { s := State.init cfg }
+  | step {x x' : XState} {o : List String} (t : Tid) : XReachFix0 cfg x → xstepF x t = some (x', o) → XReachFix0 cfg x'
+
+theorem xreachfix0_reach {cfg : Config} {x : XState} (h : XReachFix0 cfg x) : Reach cfg x.s ∧ x.fixing = [] ∧ x.dead = [] := by
+  induction h with
+  | init => exact ⟨Reach.init, rfl, rfl⟩
+  | step t _ hs ih =>
+    unfold xstepF at hs
+    split at hs
+    · cases hs
+    · obtain ⟨_, s', h1, rfl⟩ := xstep_inv hs
+      exact ⟨Reach.step t ih.1 h1, ih.2.1, ih.2.2⟩
 
 end Nstd.Future
